@@ -24,7 +24,13 @@ def norm(line):
         return line
     sw, rest = line.split(" ", 1)
     items = sw[3:].split(",")
-    items = sorted(items, key=lambda b: int(b.split("/", 1)[0]) if b.split("/", 1)[0].isdigit() else -1)
+    def chan_of(b):
+        if b.startswith("hk:"):          # result of a hooked operation: belongs to that operation's channel
+            c = b.split(":")[1]
+            return int(c) if c.isdigit() else 99
+        c = b.split("/", 1)[0]
+        return int(c) if c.isdigit() else 99
+    items = sorted(items, key=chan_of)
     return "sw=" + ",".join(items) + " " + rest
 
 
